@@ -782,7 +782,7 @@ size_t rtosc_bundle_elements(const char *buffer, size_t len)
 {
     const uint32_t *lengths = (const uint32_t*) (buffer+16);
     size_t elms = 0;
-    while(POS < len && extract_uint32((const uint8_t*)lengths)) {
+    while(POS + 4 <= len && extract_uint32((const uint8_t*)lengths)) {
         lengths += extract_uint32((const uint8_t*)lengths)/4+1;
 
         if(POS > len)
